@@ -97,7 +97,7 @@ def take(v, ctx, naive=False, form="list"):
         return None
     if form == "scalar":
         if len(v) == 1:      # one period given by plain values (accepted by the constructors)
-            return {"start": ctx.stamp(v[0][0], naive), "end": ctx.stamp(v[0][1], naive), "values": float(v[0][2])}
+            return {"start": ctx.stamp(v[0][0], naive), "end": ctx.stamp(v[0][1], naive), "values": v[0][2]}
         form = "list"
     return {"start": _container([ctx.stamp(r[0], naive) for r in v], form, True),
             "end": _container([ctx.stamp(r[1], naive) for r in v], form, True),
@@ -225,9 +225,39 @@ def build_asset(a, ctx):
     raise ValueError("unknown asset type " + str(t))
 
 
+INT_SKIP = ("name", "type", "nodes", "start", "end", "iv", "orders", "min_take", "max_take", "block", "_uc", "_m", "_p", "_q")
+
+
+def intify(a):
+    """the same asset spec with every integral number given as a Python int (a number is a number: ints are a
+    valid form of every numeric parameter); dates (step offsets) and interval lists keep their own handling"""
+    if isinstance(a, dict):
+        out = {}
+        for k, v in a.items():
+            if k in ("iv",):
+                out[k] = [[r[0], r[1], intify(r[2])] for r in v]
+            elif k == "orders":
+                out[k] = [[o[0], o[1], intify(o[2]), intify(o[3])] for o in v]
+            elif k in ("min_take", "max_take") and v:
+                out[k] = [[r[0], r[1], intify(r[2])] for r in v]
+            elif k in INT_SKIP or k.startswith("_"):
+                out[k] = v
+            else:
+                out[k] = intify(v)
+        return out
+    if isinstance(a, list):
+        return [intify(x) for x in a]
+    if isinstance(a, float) and a == int(a) and abs(a) < 2 ** 31:
+        return int(a)
+    return a
+
+
 def build_assets(spec):
     ctx = Ctx(spec["grid"])
-    return [build_asset(a, ctx) for a in spec["assets"]], ctx
+    assets = spec["assets"]
+    if spec.get("ints"):
+        assets = [intify(a) for a in assets]
+    return [build_asset(a, ctx) for a in assets], ctx
 
 
 def build_portfolio(spec):
